@@ -1422,6 +1422,12 @@ async def sc_id_squat(ctx, rng, desc, hops, pos, order):
                 return f"{a_idx} cc {to_cid} 2 - [{r_idx + 1}] {w.env_s(a_idx, to_cid)}"
             await w.api(mk, line)
             second = []
+            if order == "suspended" and w.pending:
+                # the relay's should_join_circuit really suspends: the squatting CREATE passes the guards of on_create
+                # (the id is only reserved), the victim's CREATED is paired meanwhile, then the join resumes
+                await w.deliver(w.pending.pop(0))
+                ctx.count("squat:join-suspended-gates:%d" % len(w.gates))
+                await w.deliver(gen)
 
             async def hold_second(h: Held):
                 # the CREATED answering the attacker's own extension through the relay
@@ -1440,6 +1446,8 @@ async def sc_id_squat(ctx, rng, desc, hops, pos, order):
                 for h in second:
                     await w.deliver(h)
                 await w.deliver(gen)
+            elif order == "suspended":
+                await run_fifo(w, 160)
             else:  # the attacker never completes its own extension, only squats on the id
                 await w.deliver(gen)
         await run_fifo(w, 120)
@@ -1898,6 +1906,8 @@ def scenario_list(ctx: Ctx, tier: str):
         for pos in range(2, hops + 1):
             for order in ("victim-first", "attacker-first", "squat-only"):
                 out.append({"k": "id-squat", "hops": hops, "pos": pos, "order": order})
+            out.append({"k": "id-squat", "hops": hops, "pos": pos, "order": "suspended", "gated": True})
+            out.append({"k": "id-squat", "hops": hops, "pos": pos, "order": "victim-first", "gated": True})
         for v in ("creates-only", "to-joined", "all", "shuffled", "early-and-late", "two-circuits"):
             out.append({"k": "replay-expired", "hops": hops, "variant": v})
         for pos in range(2, hops + 1):
